@@ -145,7 +145,7 @@ CHECKS["C07"] = {
             {"run": "TestVfC07CacheKey", "quick": 20000, "thorough": 1000000, "shards_quick": 2, "shards_thorough": 8},
         ]},
         {"engine": "P", "pkg": "internal/cache", "race": True, "tests": [
-            {"run": "TestVfC07MemCacheHammer", "quick": 120, "thorough": 6000, "shards_quick": 4, "shards_thorough": 12, "timeout_quick": 300},
+            {"run": "TestVfC07MemCacheHammer", "quick": 128, "thorough": 6000, "shards_quick": 16, "shards_thorough": 12, "timeout_quick": 300},
         ]},
         {"engine": "E", "proxy": ["plain"], "tests": [
             {"run": "TestVfC07Cache", "quick": 400, "thorough": 12000, "shards_quick": 8, "shards_thorough": 16, "timeout_thorough": 3400},
@@ -296,6 +296,7 @@ CHECKS["C13"] = {
     "parts": [
         {"engine": "E", "proxy": ["plain"], "tests": [
             {"run": "TestVfC13Framing", "quick": 480, "thorough": 16000, "shards_quick": 8, "shards_thorough": 16, "timeout_thorough": 3400},
+            {"run": "TestVfC13SlowSegments", "quick": 16, "thorough": 320, "shards_quick": 8, "shards_thorough": 16, "timeout_quick": 300, "timeout_thorough": 3400, "shrinktime": "60s"},
         ]},
     ],
     "assumptions": ["queries carry padding records in the additional section to vary frame sizes (ignored by the proxy)"],
